@@ -1,6 +1,7 @@
 package main
 
 import (
+	"strings"
 	"verifharness/docs"
 	"verifharness/gen"
 	"verifharness/mon"
@@ -187,6 +188,12 @@ func c15(r *mon.Run) {
 				return
 			}
 			if why := mon.JSONClosed(oe.V); why != "" {
+				if shape := mon.JSONShape(oe.V); shape != "" && !strings.Contains(shape, "non-finite") {
+					// the document is JSON data and no expression reference is involved, yet the value of the
+					// sub-expression is not a JSON value: no literal can stand for it, the law cannot hold
+					r.Violate(&mon.Violation{Workload: "referential-transparency", Index: i, API: "Search", Expr: gen.Spell(E), Doc: doc, Expected: "a JSON value (which a literal can denote)", Observed: oe.String(), Detail: shape, Class: "sub-expression value that no literal denotes"})
+					return
+				}
 				t.Count("law 2: value of E is not JSON-serialisable, skipped")
 				return
 			}
@@ -360,7 +367,8 @@ func c15(r *mon.Run) {
 	calls = append(calls, gen.Func("sort_by", gen.Field("big"), gen.ExpRef(gen.Field("n"))), gen.Func("sort_by", gen.Field("big"), gen.ExpRef(gen.Field("s"))), gen.Func("sort", gen.Field("bign")), gen.Func("sort", gen.Field("bigs")),
 		gen.Func("max_by", gen.Field("big"), gen.ExpRef(gen.Field("n"))), gen.Func("min_by", gen.Field("big"), gen.ExpRef(gen.Field("n"))), gen.Func("reverse", gen.Field("big")), gen.Func("map", gen.ExpRef(gen.Field("n")), gen.Field("big")),
 		gen.Func("max_by", gen.LitJSON("[]"), gen.ExpRef(gen.Field("n"))), gen.Func("min_by", gen.Chain(gen.Field("ao"), gen.StFilter(gen.Cmp(">", gen.Field("n"), gen.LitJSON("99")))), gen.ExpRef(gen.Field("n"))), gen.Func("to_number", gen.Field("s")),
-		gen.Func("not_null", gen.Field("z"), gen.Field("z")), gen.Func("avg", gen.LitJSON("[]")),
+		gen.Func("not_null", gen.Field("z"), gen.Field("z")), gen.Func("avg", gen.LitJSON("[]")), gen.Func("values", gen.LitJSON("{}")), gen.Func("keys", gen.LitJSON("{}")), gen.Func("to_array", gen.LitJSON("[]")), gen.Func("sort", gen.LitJSON("[]")),
+		gen.Func("reverse", gen.LitJSON("[]")), gen.Func("map", gen.ExpRef(gen.Current()), gen.LitJSON("[]")), gen.Func("merge", gen.LitJSON("{}")), gen.Func("sort_by", gen.LitJSON("[]"), gen.ExpRef(gen.Current())),
 		// holes that are not calls: filters whose condition holds for null elements, projections that drop nulls
 		gen.Chain(gen.Field("am"), gen.StFilter(gen.Not(gen.Current()))), gen.Chain(gen.Field("am"), gen.StFilter(gen.Cmp("!=", gen.Current(), gen.LitJSON("1")))), gen.Chain(gen.Field("am"), gen.StListStar()),
 		gen.Chain(gen.LitJSON("[null, 1, null, 0, false]"), gen.StFilter(gen.Not(gen.Current()))), gen.Chain(gen.Field("ao"), gen.StFilter(gen.Cmp("!=", gen.Field("missing"), gen.LitJSON("true")))), gen.Chain(gen.Field("ao"), gen.StListStar(), gen.StField("missing")),
@@ -399,6 +407,12 @@ func c15(r *mon.Run) {
 			C := sel[i/2%len(sel)]
 			t.Eval()
 			oe := apiSearch(gen.Spell(E), mon.DeepCopy(cbase))
+			if !oe.Panicked && oe.Err == nil {
+				if shape := mon.JSONShape(oe.V); shape != "" && !strings.Contains(shape, "non-finite") {
+					r.Violate(&mon.Violation{Workload: "substitution-under-a-selection", Index: i, API: "Search", Expr: gen.Spell(E), Doc: cbase, Expected: "a JSON value (which a literal can denote)", Observed: oe.String(), Detail: shape, Class: "sub-expression value that no literal denotes"})
+					return
+				}
+			}
 			if oe.Panicked || oe.Err != nil || mon.JSONClosed(oe.V) != "" {
 				t.Count("law 2 (selection): the call has no JSON value to substitute, skipped")
 				return
@@ -465,5 +479,27 @@ func c15(r *mon.Run) {
 			}
 			t.Nontrivial("akp:" + spell(gen.Pipe(A, B)))
 		}}
-	r.Exec(law1, law2, shaped, dead, behind, akPipe)
+	// law 1 where the left side leaves the finite range (a sum of finite document numbers that overflows) and the
+	// right side brings it back: each step on its own behaves like the step inside the pipe, value and error alike
+	hugeDoc := docs.J(`{"big":[1e308,1e308],"neg":[-1e308,-1e308],"mixed":[1e308,1e308,-1e308,-1e308],"ok":[1,2]}`)
+	hA := []string{"sum(big)", "avg(big)", "[sum(big), sum(neg)]", "sum(mixed)", "{s: sum(big)}", "big | sum(@)", "sum(ok)", "[big, neg][*].sum(@)", "max([sum(big), `1`])"}
+	hB := []string{"@ > `0`", "type(@)", "@ == @", "[@][?@ > `0`] | length(@)", "not_null(@) && 'set'", "!@", "[0] > `0`", "s > `0`", "@ < `0` || 'no'", "length(to_array(@))"}
+	hugew := mon.Workload{Name: "pipes-over-non-finite-intermediate-values", N: len(hA) * len(hB) * 2,
+		Do: func(i int, t *mon.Tally) {
+			A, B := hA[i/2/len(hB)], hB[i/2%len(hB)]
+			t.Eval()
+			ow := via(i, A+" | "+B, mon.DeepCopy(hugeDoc))
+			oa := via(i/2, A, mon.DeepCopy(hugeDoc))
+			ob := oa
+			if !oa.Panicked && oa.Err == nil {
+				ob = via(i, B, oa.V)
+			}
+			if ow.Panicked || ob.Panicked || !sameOutcome(ow, ob) {
+				r.Violate(&mon.Violation{Workload: "pipes-over-non-finite-intermediate-values", Index: i, API: "Search", Expr: A + " | " + B, Doc: hugeDoc,
+					Expected: "Search(B, Search(A, d)) = " + ob.String() + "   [Search(A, d) = " + oa.String() + "]", Observed: "Search('A | B', d) = " + ow.String(), Class: "pipe law (non-finite intermediate value)"})
+				return
+			}
+			t.Nontrivial("huge:" + A + "|" + B)
+		}}
+	r.Exec(law1, law2, shaped, dead, behind, akPipe, hugew)
 }
